@@ -420,3 +420,93 @@ def judge_text(job, lines, crashed, stderr=''):
             elif not r['equal'] or list(r['bytes']) != list(c['d']['data']):
                 out.append("hex %r prints as %r which parses to %r" % (c['d'], bytes(r['printed']).decode(), r['bytes']))
     return out, {}
+
+
+# ====================================================================== Hex::print / Hex::from_str (C15)
+def ob_hex_print(env, cases):
+    """from_str(print(h)) == h: cases = [(length, inline?, positions of symbolic bytes)]; the other bytes
+    are fixed (0xA5 ^ index).  UpperHex formatting is joined per call (two paths per byte otherwise)."""
+    tw = TW.get(env.ll)
+    vm = tw.vm
+    vm.opts['merge_calls'] = ('8UpperHex3fmt',)
+    n_paths = 0
+    q0, t0 = vm.solver.queries, vm.solver.time
+    try:
+        for (L, inline, sympos) in cases:
+            st = vm.new_state()
+            src = st.mem.alloc(16, 1, 'heap', name='src').base
+            bs = [z3.BitVec('b%d' % i, 8) if i in sympos else ((0xA5 ^ (17 * i)) & 0xFF) for i in range(L)]
+            pad = [z3.BitVec('pad%d' % i, 8) for i in range(L, 8)] if inline else []
+            cells = [(b, 0) if not isinstance(b, int) else b for b in bs] + [(p, 0) for p in pad]
+            cells += [0] * (16 - len(cells))
+            st.mem.write_cells(src, cells)
+            hx = st.mem.alloc(24, 8, 'heap', name='hex').base
+            o = vm.run(st, '@hex_inline' if inline else '@hex_vector', [hx, src, L])
+            if len(o) != 1 or o[0].kind != 'ret':
+                raise Inconclusive("hex constructor: %r" % (o,))
+            s1 = o[0].st
+            sa = s1.mem.alloc(24, 8, 'heap', name='out.string').base
+
+            def desc(m):
+                ev = lambda t: t if isinstance(t, int) else m.eval(t, model_completion=True).as_long()
+                return {'inline': bool(inline), 'data': [ev(b) for b in bs], 'pad': [ev(p) for p in pad]}
+            for o1 in vm.run(s1, '@hex_print', [hx, sa]):
+                n_paths += 1
+                if o1.kind != 'ret':
+                    m = vm.get_model(o1.st)
+                    if m is not None:
+                        env.violation(kind=o1.kind, clauses=['print ends in %s' % o1.kind], props=['C15'], call={'op': 'hex_print', 'd': desc(m)},
+                                      job={'text': True, 'calls': [{'op': 'hex_print', 'd': desc(m)}]}, detail=o1.detail)
+                    continue
+                s2, ptr, ln = tw.string_of(o1.st, sa)
+                ln = vm.concretize(s2, ln) if not isinstance(ln, int) else ln
+                want_len = 2 if L == 0 else 3 * L - 1
+                out = s2.mem.alloc(24, 8, 'heap', name='out.hex').base
+                for o2 in vm.run(s2, '@hex_parse', [ptr, ln, out]):
+                    n_paths += 1
+                    bad = None
+                    if o2.kind != 'ret':
+                        bad = 'from_str of a printed Hex ends in %s' % o2.kind
+                        s3 = o2.st
+                        cond = z3.BoolVal(True)
+                    else:
+                        ok = o2.value
+                        okb = ok if isinstance(ok, z3.BoolRef) else ((to_bv(ok, 8) & 1) == 1)
+                        s3 = o2.st
+                        cond = z3.Not(okb)
+                        bad = 'the printed form is rejected by from_str'
+                        if not vm.solver.check(s3.pc, cond, want_model=False)[0]:
+                            # accepted: compare byte strings through the real Hex::bytes
+                            bad = 'parsing the printed form gives different bytes'
+                            pp = s3.mem.alloc(8, 8, 'heap', name='scratch.pp').base
+                            diffs = [z3.BoolVal(ln != want_len)]
+                            for o3 in vm.run(s3, '@hex_view', [out, pp]):
+                                n_paths += 1
+                                if o3.kind != 'ret':
+                                    raise Inconclusive("hex_view: %r" % (o3,))
+                                n = to_bv(o3.value, 64)
+                                p3 = cells_to_val(o3.st.mem.read_cells(pp, 8))
+                                d = [n != L]
+                                if vm.feasible(o3.st, n == L):
+                                    for i in range(L):
+                                        c = vm.load_bytes(o3.st, p3 + i, 1)[0]
+                                        d.append(z3.BoolVal(True) if c is None else cell_term(c) != to_bv(bs[i], 8))
+                                sat, m = vm.solver.check(o3.st.pc, z3.Or(*d))
+                                if sat:
+                                    env.violation(kind='clause', clauses=[bad], props=['C15'], call={'op': 'hex_print', 'd': desc(m)},
+                                                  job={'text': True, 'calls': [{'op': 'hex_print', 'd': desc(m)}]})
+                            continue
+                    sat, m = vm.solver.check(s3.pc, cond)
+                    if sat:
+                        env.violation(kind='clause', clauses=[bad], props=['C15'], call={'op': 'hex_print', 'd': desc(m)},
+                                      job={'text': True, 'calls': [{'op': 'hex_print', 'd': desc(m)}]})
+            env.cover('hex printed and parsed', True)
+    finally:
+        vm.opts['merge_calls'] = ()
+    env.res['paths'] += n_paths
+    env.res['queries'] += vm.solver.queries - q0
+    env.res['solver_s'] += vm.solver.time - t0
+    env.res['funcs'] = sorted(vm.stats['funcs'])
+    env.res['externs'] = sorted(vm.stats['ext_calls'])
+    env.sample({'family': 'Hex print-then-parse', 'cases (length, inline, symbolic byte positions)': [list(map(lambda x: list(x) if isinstance(x, (tuple, set, frozenset)) else x, c)) for c in cases[:4]],
+                'n_cases': len(cases), 'paths': n_paths})
